@@ -788,7 +788,10 @@ func (t *tree) parseHeaderParam(token item) ast.Node {
 func Expr(str string) (node ast.Node, err error) {
 	var t = &tree{lex: lexExpr("", str)}
 	defer t.recover(&err)
-	return t.parseExpr(0), err
+	node = t.parseExpr(0)
+	// let the lexer goroutine finish even if there is unread trailing input.
+	t.lex.drain()
+	return node, err
 }
 
 // boolAttr returns a boolean value from the given attribute map.
